@@ -26,7 +26,7 @@ fn run_guarded(op: &str, a: &Args) -> String {
 
 fn main() {
     let argv: Vec<String> = std::env::args().collect();
-    std::panic::set_hook(Box::new(|info| { if !QUIET.with(|q| q.get()) { eprintln!("harness panic (generator): {info}"); } }));
+    std::panic::set_hook(Box::new(|info| { if !QUIET.with(|q| q.get()) { eprintln!("harness panic (generator): {info}"); } else if std::env::var("VERIF_PANIC_MSG").is_ok() { eprintln!("panic in implementation: {info}"); } }));
     match argv.get(1).map(|s| s.as_str()) {
         Some("gen") => {
             let prop = argv[2].to_lowercase();
@@ -38,9 +38,15 @@ fn main() {
             let mut tw = BufWriter::new(tags);
             let mut r = Rng::new(seed);
             let mut n = 0u64;
+            let cur_path = format!("{}.current", &argv[5]);
             let mut emit = |c: Case| {
-                let out = run_guarded(c.op, &c.args);
                 let args = fmt_args(&c.args);
+                // ops that may abort the process (std UB precondition checks in the debug build) leave their
+                // case behind, so that a crash can be reported with the input that caused it
+                if c.op.ends_with("panel") || c.op.contains("risky") {
+                    let _ = std::fs::write(&cur_path, format!("{}:{}\t{}\t{}\t!crash\n", n, c.op, c.models.first().copied().unwrap_or(c.op), args));
+                }
+                let out = run_guarded(c.op, &c.args);
                 for m in &c.models {
                     writeln!(w, "{}:{}\t{}\t{}\t{}", n, c.op, m, args, out).unwrap();
                 }
@@ -52,6 +58,7 @@ fn main() {
             }
             w.flush().unwrap();
             tw.flush().unwrap();
+            let _ = std::fs::remove_file(&cur_path);
         }
         Some("replay") => {
             // re-run the implementation on the cases of a replay/case file; same output format
